@@ -5,6 +5,8 @@ HERE="$(cd "$(dirname "$0")/.." && pwd)"
 cd "$HERE"
 OUT="$HERE/seeded/RESULTS.tsv"
 : > "$OUT.tmp"
+: > "$OUT.jobs"
+export SWEEP_OUT="$OUT" SWEEP_HERE="$HERE"
 for d in $(ls -d "$HERE"/seeded/*/ | xargs -n1 basename); do
   id=${d%%-*}
   extra=""
@@ -15,13 +17,19 @@ for d in $(ls -d "$HERE"/seeded/*/ | xargs -n1 basename); do
     C06-r2-1) extra="C08";; C06-r2-2) extra="C07";; C07-r2-1) extra="C06";; C13-r2-2) extra="C11 C05";; C02-r2-2) extra="C01";; C02-r2-3) extra="C03";;
     C16-r2-3) extra="C15";; C10-r2-2) extra="C11";; C07-r2-2) extra="C09";;
     C01-r3-1) extra="C07";; C02-r3-1|C02-r3-2) extra="C01";; C03-r3-1) extra="C09";; C10-r3-2) extra="C02";; C05-r3-1) extra="C11";;
-    C07-r3-1) extra="C06";; C07-r3-2) extra="C09";; C09-r3-1) extra="C08";; C12-r3-2|C14-r3-2) extra="C12 C14";; C17-r3-2) extra="C10";;
+    C07-r3-1) extra="C06";; C07-r3-2) extra="C09";; C09-r3-1) extra="C08";; C12-r3-2) extra="C14";; C14-r3-2) extra="C12";; C17-r3-2) extra="C10";;
     C18-r3-2) extra="C06";; C08-r3-2) extra="C03";; C11-r3-1|C11-r3-2) extra="C10";;
   esac
-  LINES_MAX=3 tools/try_patch.sh "$HERE/seeded/$d/patch.diff" $id $extra 2>&1 | grep "^RESULT" | while read -r _ chk ex rest; do
-    sigs=$(echo "$rest" | grep -o "signature=[^ ]*" | sed 's/signature=//' | tr '\n' ' ')
-    printf "%s\t%s\t%s\t%s\n" "$d" "$chk" "$ex" "$sigs" >> "$OUT.tmp"
-  done
+  echo "$d $id $extra" >> "$OUT.jobs"
 done
+# PAR seeded changes are tried at a time (default 1; each one uses its own scratch worktree and output directory)
+sort "$OUT.jobs" | xargs -P "${PAR:-1}" -L 1 sh -c '
+  d=$0; OUT=$SWEEP_OUT; HERE=$SWEEP_HERE
+  LINES_MAX=3 "$HERE/tools/try_patch.sh" "$HERE/seeded/$d/patch.diff" "$@" 2>&1 | grep "^RESULT" | while read -r _ chk ex rest; do
+    sigs=$(echo "$rest" | grep -o "signature=[^ ]*" | sed "s/signature=//" | tr "\n" " ")
+    printf "%s\t%s\t%s\t%s\n" "$d" "$chk" "$ex" "$sigs" >> "$OUT.tmp"
+  done'
+rm -f "$OUT.jobs"
+sort -o "$OUT.tmp" "$OUT.tmp"
 mv "$OUT.tmp" "$OUT"
 echo SWEEPDONE
